@@ -23,7 +23,9 @@ func zzC07_run() {
 	var got []zzGot
 	// payload sizes: 0 and 3 (length nibble < 13), 11 and 12 (around the 13 boundary once the payload marker is
 	// counted), 20 and 40 (one-byte extended length), 280 (two-byte extended length)
-	sizes := []int{0, 3, 11, 12, 20, 40, 280}
+	// (with the 2-byte Content-Format option and the payload marker, a 266-byte payload makes the frame's length
+	// field exactly 269, the border between the one- and two-byte extended length)
+	sizes := []int{0, 3, 12, 40, 266, 280, 11, 20, 265, 267}
 	nmsg := symParam("messages", 3)
 	var frames [][]byte
 	var want []zzGot
